@@ -10,8 +10,9 @@ index = opaque black, missing alpha = 255, an over-long tRNS is ignored), `specK
 `specOutputLineSize`.
 
 Implementation-shaped side (every definition cites the Rust lines it mirrors):
-`rawRowLengthFromWidth` (common.rs:59), `createRgbaPalette` (palette.rs:39-91: 4-byte copies that
-clobber the next alpha, tRNS pass, un-clobbering), `expand8bitIntoRgb8` (palette.rs:93-106:
+`rawRowLengthFromWidth` (common.rs:59), `createRgbaPalette` (palette.rs:39-95: truncation to whole
+entries, at most 256, then — as `createRgbaPaletteOld`, the pinned-tree function — 4-byte copies that
+clobber the next alpha, tRNS pass, un-clobbering), `expand8bitIntoRgb8` (palette.rs:97-110:
 overlapping 4-byte writes), `unpackBits` (transform.rs:90-135: shift iterator with its asserts and
 `expect`), the closures of `expand_into_rgb8` / `expand_paletted_into_rgba8` / `expand_gray_u8` /
 `expand_gray_u8_with_trns`, `expandTrnsLine` / `expandTrnsLine16` / `expandTrnsAndStripLine16`
@@ -136,6 +137,10 @@ def chunksN {α : Type} (k : Nat) : Nat → List α → List (List α)
   | 0, _ => []
   | n + 1, l => l.take k :: chunksN k n (l.drop k)
 
+/-- The entries of a PLTE chunk body: whole 3-byte entries only, and at most 256 of them (a valid
+    PLTE chunk is exactly its entries; trailing bytes of a malformed chunk are not an entry). -/
+def specPalette (plte : Bytes) : Bytes := plte.take (min (plte.length / 3) 256 * 3)
+
 /-- palette entry `i` as RGB; an index beyond the palette is black -/
 def specPaletteRgb (pal : Bytes) (i : Nat) : List Nat :=
   if 3 * i + 3 ≤ pal.length then
@@ -166,7 +171,7 @@ def specExpandPixel (info : Info) (f : Flags) (px : List Nat) : List Nat :=
   if f.doExpand then
     match info.colorType with
     | .indexed =>
-      let pal := info.palette.getD []
+      let pal := specPalette (info.palette.getD [])
       let i := px.headD 0
       specPaletteRgb pal i ++ (if addAlpha info f then [specPaletteAlpha pal info.trns i] else [])
     | .gray =>
@@ -277,7 +282,7 @@ def Rgba.setAlpha (e : Rgba) (a : UInt8) : Rgba := (e.1, e.2.1, e.2.2.1, a)
 def Rgba.toBytes (e : Rgba) : Bytes := [e.1, e.2.1, e.2.2.1, e.2.2.2]
 def Rgba.rgbBytes (e : Rgba) : Bytes := [e.1, e.2.1, e.2.2.1]
 
-/-- palette.rs:61-76.  First argument `rgba_iter` (the not yet written rows of the table), second
+/-- palette.rs:65-80.  First argument `rgba_iter` (the not yet written rows of the table), second
     `palette_iter`.  While at least 4 palette bytes remain, copy 4 bytes into `rgba_iter[0]` (the
     4th is the next entry's red: clobbers alpha) and advance by 3 bytes / one row; afterwards, if
     bytes remain, copy `palette_iter[0..3]` into `rgba_iter[0][0..3]`.  Panics: `rgba_iter[0]` on an
@@ -292,25 +297,35 @@ def copyEntries : List Rgba → Bytes → Except Err (List Rgba)
   | e :: slots, [r, g, b] => .ok ((r, g, b, e.2.2.2) :: slots)
   | _, _ => .error .panic
 
-/-- palette.rs:81-83: `for (alpha, rgba) in trns.iter().copied().zip(rgba_palette.iter_mut())` -/
+/-- palette.rs:85-87: `for (alpha, rgba) in trns.iter().copied().zip(rgba_palette.iter_mut())` -/
 def zipAlpha : Bytes → List Rgba → List Rgba
   | a :: t, e :: tbl => e.setAlpha a :: zipAlpha t tbl
   | _, tbl => tbl
 
-/-- palette.rs:86-88: `for rgba in rgba_palette[lo..hi].iter_mut() { rgba[3] = 0xFF }`; the slice
+/-- palette.rs:90-92: `for rgba in rgba_palette[lo..hi].iter_mut() { rgba[3] = 0xFF }`; the slice
     expression panics when `lo > hi` or `hi > 256` -/
 def unclobber (lo hi : Nat) (tbl : List Rgba) : Except Err (List Rgba) :=
   if lo ≤ hi ∧ hi ≤ tbl.length then
     .ok (tbl.mapIdx fun i e => if lo ≤ i ∧ i < hi then e.setAlpha 0xFF else e)
   else .error .panic
 
-/-- `create_rgba_palette` (palette.rs:39-91) for `info.palette = Some(palette)` -/
-def createRgbaPalette (palette : Bytes) (trnsOpt : Option Bytes) : Except Err (List Rgba) :=
+/-- `create_rgba_palette` **as it was on the pinned tree a1124db** (palette.rs:39-91 there), for
+    `info.palette = Some(palette)`: no look at the PLTE length, hence the panics of defect D1.  Since
+    the repair (commit c0a00c7) this is the part of the function after the truncation. -/
+def createRgbaPaletteOld (palette : Bytes) (trnsOpt : Option Bytes) : Except Err (List Rgba) :=
   let trns := trnsOpt.getD []
   let trns := if trns.length ≤ palette.length / 3 then trns else []
   match copyEntries (List.replicate 256 (0, 0, 0, 0xFF)) palette with
   | .error e => .error e
   | .ok t => unclobber trns.length (palette.length / 3) (zipAlpha trns t)
+
+/-- `create_rgba_palette` (palette.rs:39-95, repaired): first
+    `let palette = &palette[..(palette.len() / 3).min(256) * 3];` (palette.rs:45; the slice
+    expression panics if the bound exceeds the length), then everything as before on the truncated
+    palette — including the `trns.len() <= palette.len() / 3` test. -/
+def createRgbaPalette (palette : Bytes) (trnsOpt : Option Bytes) : Except Err (List Rgba) :=
+  let n := min (palette.length / 3) 256 * 3
+  if n ≤ palette.length then createRgbaPaletteOld (palette.take n) trnsOpt else .error .panic
 
 /-- `rgba_palette[i as usize]` -/
 def memoLookup (memo : List Rgba) (i : UInt8) : Except Err Rgba :=
@@ -320,7 +335,7 @@ def memoLookup (memo : List Rgba) (i : UInt8) : Except Err Rgba :=
 
 /-! ## Implementation-shaped: `expand_8bit_into_rgb8` -/
 
-/-- palette.rs:93-106.  First argument `input`, second the remaining `output` slice (prior content);
+/-- palette.rs:97-110.  First argument `input`, second the remaining `output` slice (prior content);
     the result is the final content of that slice.  While at least 4 output bytes remain, write all
     4 bytes of the memo entry and advance the output by 3 — so the alpha byte lands in what the
     next round sees as `output[0]`; finally write 3 bytes.  Panics: `input[0]` on an empty input,
@@ -424,14 +439,14 @@ def expandGrayU8WithTrns (info : Info) (row out : Bytes) : Except Err Bytes :=
       | .error e, _ => .error e
       | _, .error e => .error e
 
-/-- `expand_into_rgb8` (palette.rs:108-115) -/
+/-- `expand_into_rgb8` (palette.rs:112-119) -/
 def expandIntoRgb8 (info : Info) (memo : List Rgba) (row out : Bytes) : Except Err Bytes :=
   unpackBits row out 3 info.bitDepth.toNat fun i =>
     match memoLookup memo i with
     | .ok e => .ok e.rgbBytes
     | .error e => .error e
 
-/-- `expand_paletted_into_rgba8` (palette.rs:117-126) -/
+/-- `expand_paletted_into_rgba8` (palette.rs:121-130) -/
 def expandPalettedIntoRgba8 (info : Info) (memo : List Rgba) (row out : Bytes) : Except Err Bytes :=
   unpackBits row out 4 info.bitDepth.toNat fun i =>
     match memoLookup memo i with
@@ -525,13 +540,14 @@ def selectTransform (info : Info) (f : Flags) : Except Err Kind :=
 /-- the selected function applied to a row; the memo palette is built first, as
     `create_expansion_into_rgb(a)8` do at creation time (`expect("Caller should verify")` on a
     missing palette) -/
-def applyKind (info : Info) (k : Kind) (row out : Bytes) : Except Err Bytes :=
+def applyKindWith (mkMemo : Bytes → Option Bytes → Except Err (List Rgba))
+    (info : Info) (k : Kind) (row out : Bytes) : Except Err Bytes :=
   match k with
   | .paletteRgba | .paletteRgb8 | .paletteRgb =>
     match info.palette with
     | none => .error .panic
     | some pal =>
-      match createRgbaPalette pal info.trns with
+      match mkMemo pal info.trns with
       | .error e => .error e
       | .ok memo =>
         match k with
@@ -546,12 +562,23 @@ def applyKind (info : Info) (k : Kind) (row out : Bytes) : Except Err Bytes :=
   | .strip16 => transformRowStrip16 row out
   | .copy => copyRow row out
 
+/-- the selected function with the (repaired) `create_rgba_palette` -/
+def applyKind (info : Info) (k : Kind) (row out : Bytes) : Except Err Bytes :=
+  applyKindWith createRgbaPalette info k row out
+
 /-- `create_transform_fn(info, t)?` followed by `transform_fn(row, output_buffer, info)`
     (decoder/mod.rs:580-586) -/
 def transformRow (info : Info) (f : Flags) (row out : Bytes) : Except Err Bytes :=
   match selectTransform info f with
   | .error e => .error e
   | .ok k => applyKind info k row out
+
+/-- the same on the pinned tree a1124db (with `createRgbaPaletteOld`): kept for the record of
+    defect D1 -/
+def transformRowOld (info : Info) (f : Flags) (row out : Bytes) : Except Err Bytes :=
+  match selectTransform info f with
+  | .error e => .error e
+  | .ok k => applyKindWith createRgbaPaletteOld info k row out
 
 /-! ## `parse_trns`: normalisation of the colour key -/
 
@@ -571,9 +598,19 @@ def parseTrns (ct : ColorType) (d : BitDepth) (raw : Bytes) : Option Bytes :=
 
 /-! ## Well-formed metadata -/
 
+/-- What the decoder needs of the metadata (weaker than validity): a legal colour type / bit depth
+    pair; an indexed image has *some* PLTE chunk, of any length; a grayscale / RGB colour key has one
+    stored sample per channel. -/
+structure Decodable (info : Info) : Prop where
+  legal : legal info.colorType info.bitDepth = true
+  palette : info.colorType = .indexed → info.palette.isSome = true
+  key : ∀ t, info.trns = some t → info.colorType = .gray ∨ info.colorType = .rgb →
+    t.length = info.colorType.samples * (if info.bitDepth = .sixteen then 2 else 1)
+
 /-- What the PNG specification guarantees about the metadata of a valid image: a legal colour type /
     bit depth pair; an indexed image has a PLTE chunk of 1..256 whole entries (length divisible by 3,
-    at most 768 bytes — the guard `create_rgba_palette` lacks, defect D1); a grayscale / RGB colour
+    at most 768 bytes — the guard `create_rgba_palette` lacked on the pinned tree, defect D1, and
+    no longer needs since commit c0a00c7); a grayscale / RGB colour
     key has one stored sample per channel (two bytes each for depth 16, one byte each otherwise, as
     `parse_trns` leaves it). -/
 structure WellFormed (info : Info) : Prop where
